@@ -41,6 +41,12 @@ class AbstractConcept(metaclass=ABCMeta):
 
         super(AbstractConcept, self).__setattr__(key, value)
 
+    def __delattr__(self, key):
+        if key in {'extent_i', 'extent', 'intent_i', 'intent', 'context_hash', 'is_monotone'}:
+            raise FrozenInstanceError(f'Value of {key} cannot be deleted')
+
+        super(AbstractConcept, self).__delattr__(key)
+
     @property
     def support(self):
         return len(self.extent_i)
